@@ -281,6 +281,23 @@ where
         self.n_levels
     }
 
+    /// Checks if `symbol` can be queried: the tree is not empty and the symbol is not larger
+    /// than the largest symbol (plain tree) or occurs in the sequence (compressed tree).
+    #[inline(always)]
+    fn is_valid_symbol(&self, symbol: T) -> bool {
+        if COMPRESSED {
+            match (self.codes_encode.as_ref(), symbol.to_usize()) {
+                (Some(codes), Some(s)) => s < codes.len() && codes[s].len != 0,
+                _ => false,
+            }
+        } else {
+            match self.sigma.as_ref() {
+                Some(sigma) => symbol <= *sigma,
+                None => false,
+            }
+        }
+    }
+
     /// Verification hook: the length of each level.
     #[cfg(qwt_verif)]
     pub fn verif_level_lens(&self) -> &[usize] {
@@ -377,18 +394,7 @@ where
 {
     #[inline(always)]
     fn rank(&self, symbol: Self::Item, i: usize) -> Option<usize> {
-        if i > self.n {
-            return None;
-        }
-
-        if !COMPRESSED && symbol > *self.sigma.as_ref().unwrap() {
-            return None;
-        }
-
-        if COMPRESSED
-            && (symbol.as_() >= self.codes_encode.as_ref().unwrap().len()
-                || self.codes_encode.as_ref().unwrap()[symbol.as_() as usize].len == 0)
-        {
+        if i > self.n || !self.is_valid_symbol(symbol) {
             return None;
         }
 
@@ -437,7 +443,7 @@ where
 {
     #[inline(always)]
     fn select(&self, symbol: Self::Item, i: usize) -> Option<usize> {
-        if COMPRESSED && self.codes_encode.as_ref().unwrap()[symbol.as_() as usize].len == 0 {
+        if !self.is_valid_symbol(symbol) {
             return None;
         }
 
